@@ -11,6 +11,11 @@ EXT = "en{A,B(u32),C(u8,str),D{x:i16,y:opt(bool)},E(%s),F(seq(u8)),G(unit),H(opt
 ITAG = "it(t){A,B{x:u8,s:str},C(%s),D{v:seq(i32),o:opt(u16)}}" % POINT
 UNTAGGED = "un{Num(u32),Text(str),Pair(u8,u8),Rec{x:u8,y:str},Pt(%s),Big(i64),Fl(f64),Flag(bool)}" % POINT
 
+_V4 = "tup(u8,u8,u8,u8)"
+_V6 = "tup(" + ",".join(["u8"] * 16) + ")"
+IPADDR = "en{V4(%s),V6(%s)}" % (_V4, _V6)
+SOCKADDR = "en{V4(tup(%s,u16)),V6(tup(%s,u16))}" % (_V4, _V6)
+
 RECORD = "st{id:u32,note?:opt(str),tags*:seq(u8),last:bool}"
 ALLSKIP = "st{a?:opt(u8),b*:seq(opt(i16))}"
 EVENT = "en{Ping,Update{seq:u64,comment?:opt(str),path*:seq(u16)},Note{text?:opt(%s)}}" % POINT
@@ -79,6 +84,8 @@ SERDE_ONLY = {
     "tup_color_opt": "tup(%s,opt(u8))" % COLOR, "vec_opt_color": "seq(opt(%s))" % COLOR,
     "tup_ext_opt": "tup(%s,opt(%s),%s)" % (EXT, EXT, EXT), "vec_opt_ext": "seq(opt(%s))" % EXT,
     "TsColorOpt": "ts(%s,opt(str),%s,opt(unit))" % (COLOR, COLOR),
+    # std's network addresses: their serde impls ask is_human_readable() on both sides of the bridge (compact form: octet tuples)
+    "ipaddr": IPADDR, "sockaddr": SOCKADDR, "vec_ipaddr": "seq(%s)" % IPADDR, "NetS": "st{ip:%s,peer:opt(%s),n:u8}" % (IPADDR, SOCKADDR),
 }
 
 INT_KINDS = {"u8": (0, 2**8 - 1), "u16": (0, 2**16 - 1), "u32": (0, 2**32 - 1), "u64": (0, 2**64 - 1),
